@@ -59,3 +59,149 @@ contract('drivers.c11:rt_connect', 'C11',
                   ('O-rt.rw', 'result.rw == rw'),
                   ('O-rt.sn', 'result.sn == sn')],
          raises={})
+
+contract('drivers.c11:rt_cc', 'C11', dict(dsap=SAP(), ssap=SAP(), miu=Int(128, 2175), rw=Int(0, 15)),
+         name='C11/ConnectionComplete.roundtrip',
+         ensures=[('O-rt.type', 'type(result).__name__ == "ConnectionComplete"'),
+                  ('O-rt.addr', 'result.dsap == dsap and result.ssap == ssap'),
+                  ('O-rt.miu', 'result.miu == miu'), ('O-rt.rw', 'result.rw == rw')],
+         raises={})
+contract('drivers.c11:rt_pax', 'C11',
+         dict(version=Opt(Byte()), miux=Opt(Int(0, 0x7FF)), wks=Opt(Int(0, 0xFFFF)), lto=Opt(Byte()),
+              opt=Opt(Int(0, 7))),
+         name='C11/ParameterExchange.roundtrip',
+         ensures=[('O-rt.type', 'type(result).__name__ == "ParameterExchange"'),
+                  ('O-rt.fields', 'result._version == version and result._miux == miux and '
+                                  'result._wks == wks and result._lto == lto and result._opt == opt')],
+         raises={})
+contract('drivers.c11:rt_dps', 'C11', dict(ecpk=Opt(Bytes(1, 255)), rn=Opt(Bytes(1, 255))),
+         name='C11/DataProtectionSetup.roundtrip',
+         ensures=[('O-rt.type', 'type(result).__name__ == "DataProtectionSetup"'),
+                  ('O-rt.fields', 'result.ecpk == ecpk and result.rn == rn')],
+         raises={})
+
+# real encode followed by real decode, field by field (first sentence of C11)
+for cls, ptype, fields, names in [
+        ('Connect', 4, dict(miu=Int(128, 2175), rw=Int(0, 15), sn=Opt(Bytes(1, 255))), ['miu', 'rw', 'sn']),
+        ('ConnectionComplete', 6, dict(miu=Int(128, 2175), rw=Int(0, 15)), ['miu', 'rw']),
+        ('ParameterExchange', 1, dict(dsap=0, ssap=0, _version=Opt(Byte()), _miux=Opt(Int(0, 0x7FF)),
+                                      _wks=Opt(Int(0, 0xFFFF)), _lto=Opt(Byte()), _opt=Opt(Int(0, 7))),
+         ['_version', '_miux', '_wks', '_lto', '_opt']),
+        ('UnnumberedInformation', 3, dict(data=Bytes()), ['data']),
+        ('Information', 12, dict(ns=SEQ(), nr=SEQ(), data=Bytes()), ['ns', 'nr', 'data']),
+        ('DisconnectedMode', 7, dict(reason=Byte()), ['reason']),
+        ('ReceiveReady', 13, dict(ns=0, nr=SEQ()), ['nr']),
+        ('ReceiveNotReady', 14, dict(ns=0, nr=SEQ()), ['nr']),
+        ('Disconnect', 5, {}, []),
+        ('Symmetry', 0, dict(dsap=0, ssap=0), []),
+        ('FrameReject', 8, dict(rej_flags=SEQ(), rej_ptype=SEQ(), ns=SEQ(), nr=SEQ(), vs=SEQ(), vr=SEQ(),
+                                vsa=SEQ(), vra=SEQ()),
+         ['rej_flags', 'rej_ptype', 'ns', 'nr', 'vs', 'vr', 'vsa', 'vra']),
+        ('DataProtectionSetup', 10, dict(dsap=0, ssap=0, ecpk=Opt(Bytes(1, 255)), rn=Opt(Bytes(1, 255))),
+         ['ecpk', 'rn'])]:
+    contract('drivers.c11:encode_decode', 'C11', dict(p=pdu_obj(cls, ptype, **fields)),
+             name='C11/%s.encode_decode' % cls,
+             ensures=[('O-rt.type', 'type(result).__name__ == "%s"' % cls),
+                      ('O-rt.addr', 'result.dsap == p.dsap and result.ssap == p.ssap')] +
+                     [('O-rt.' + f, 'result.%s == p.%s' % (f, f)) for f in names],
+             raises={})
+
+# ------------------------------------------------------------------ O-dec
+TLV_LOOP = dict(invariant=['offset + size == old(offset) + 2 + old_size(old(data), old(offset), old(size)) - 2',
+                           'offset >= old(offset) + 2'],
+                decreases='size')
+
+
+def tlv_loop(extra_havoc):
+    h = {'offset': Int(), 'size': Int()}
+    h.update(extra_havoc)
+    return LoopSpec(havoc=h, **TLV_LOOP)
+
+
+DEC_LOOPS = {
+    ('nfc.llcp.pdu.ParameterExchange.decode', 'While', 0): tlv_loop({
+        'pax_pdu._version': Any(), 'pax_pdu._miux': Any(), 'pax_pdu._wks': Any(), 'pax_pdu._lto': Any(),
+        'pax_pdu._opt': Any()}),
+    ('nfc.llcp.pdu.Connect.decode', 'While', 0): tlv_loop({
+        'connect_pdu.miu': Any(), 'connect_pdu.rw': Any(), 'connect_pdu.sn': Any()}),
+    ('nfc.llcp.pdu.ConnectionComplete.decode', 'While', 0): tlv_loop({'cc_pdu.miu': Any(), 'cc_pdu.rw': Any()}),
+    ('nfc.llcp.pdu.ServiceNameLookup.decode', 'While', 0): tlv_loop({
+        'snl_pdu.sdreq': ListOf(Any()), 'snl_pdu.sdres': ListOf(Any())}),
+    ('nfc.llcp.pdu.DataProtectionSetup.decode', 'While', 0): tlv_loop({'dps_pdu.ecpk': Any(), 'dps_pdu.rn': Any()}),
+    ('nfc.llcp.pdu.AggregatedFrame.decode', 'While', 0): tlv_loop({'agf_pdu._aggregate': ListOf(Any())}),
+}
+
+PT_NAMES = {0: 'SYMM', 1: 'PAX', 2: 'AGF', 3: 'UI', 4: 'CONNECT', 5: 'DISC', 6: 'CC', 7: 'DM', 8: 'FRMR',
+            9: 'SNL', 10: 'DPS', 11: 'rsvd11', 12: 'I', 13: 'RR', 14: 'RNR', 15: 'rsvd15'}
+DEC = dict(ensures=[('O-dec.valid', 'valid_frame(pdu_octets(data, offset, size))'),
+                    ('O-dec.agrees', 'agrees(result, pdu_octets(data, offset, size))')],
+           raises={DE: []},
+           reads={'data': ('offset', 'own_end(data, offset, size)', {'data': 'pdu_octets(data, offset, size)', 'offset': '0'})},
+           loops=DEC_LOOPS, use=['C11/decode'])
+DEC_PARAMS = dict(data=Bytes(), offset=Int(0, None), size=Opt(Int()))
+# Summary used at the recursive call site in AggregatedFrame.decode: raises
+# and reads only.  It is justified by the case contracts below, whose
+# preconditions are proved to cover every (data, offset, size).
+contract(P + 'decode', 'C11', DEC_PARAMS, name='C11/decode',
+         raises={DE: []}, reads=DEC['reads'], returns=Obj(P + 'ProtocolDataUnit'),
+         cases=['C11/decode[short]'] + ['C11/decode[%s]' % n for n in PT_NAMES.values()])
+contract(P + 'decode', 'C11', DEC_PARAMS, name='C11/decode[short]', requires=['len(data) < offset + 2'], **DEC)
+for pt, nm in PT_NAMES.items():
+    contract(P + 'decode', 'C11', DEC_PARAMS, name='C11/decode[%s]' % nm,
+             requires=['len(data) >= offset + 2', 'hdr_ptype(data[offset:offset+2]) == %d' % pt], **DEC)
+
+# ------------------------------------------------------------------ list-valued types (bounded)
+SDREQ = lambda: Tup(Byte(), Bytes(0, 254))    # noqa
+SDRES = lambda: Tup(Byte(), Byte())           # noqa
+for nreq in range(3):
+    for nres in range(3):
+        if nreq + nres == 0 or nreq + nres > 3:
+            continue
+        b = 'bounded: %d SDREQ and %d SDRES entries, each fully symbolic' % (nreq, nres)
+        contract(P + 'ServiceNameLookup.encode', 'C11',
+                 dict(self=pdu_obj('ServiceNameLookup', 9, dsap=1, ssap=1,
+                                   sdreq=Fixed([SDREQ() for _ in range(nreq)]),
+                                   sdres=Fixed([SDRES() for _ in range(nres)]))),
+                 name='C11/ServiceNameLookup.encode[%d,%d]' % (nreq, nres), bounded=b,
+                 ensures=[('O-len', 'len(self) == len(result)'),
+                          ('O-hdr', 'result[0:2] == hdr(1, SNL, 1)')], raises={})
+        contract('drivers.c11:rt_snl', 'C11',
+                 dict(reqs=Fixed([SDREQ() for _ in range(nreq)]), ress=Fixed([SDRES() for _ in range(nres)])),
+                 name='C11/ServiceNameLookup.roundtrip[%d,%d]' % (nreq, nres), bounded=b,
+                 ensures=[('O-rt.type', 'type(result).__name__ == "ServiceNameLookup"'),
+                          ('O-rt.sdreq', 'result.sdreq == reqs'), ('O-rt.sdres', 'result.sdres == ress')],
+                 raises={})
+
+contract('drivers.c11:rt_agf', 'C11',
+         dict(frames=Fixed([Bytes(2, 300), Bytes(2, 300)])),
+         name='C11/AggregatedFrame.roundtrip[2]', bounded='bounded: 2 aggregated PDUs of symbolic content',
+         requires=['valid_frame(frames[0]) and hdr_ptype(frames[0]) == UI',
+                   'valid_frame(frames[1]) and hdr_ptype(frames[1]) == I'],
+         ensures=[('O-rt.type', 'type(result).__name__ == "AggregatedFrame"'),
+                  ('O-rt.count', 'len(result._aggregate) == 2'),
+                  ('O-rt.first', 'agrees(result._aggregate[0], frames[0])'),
+                  ('O-rt.second', 'agrees(result._aggregate[1], frames[1])')],
+         raises={})
+contract(P + 'AggregatedFrame.encode', 'C11',
+         dict(self=pdu_obj('AggregatedFrame', 2, dsap=0, ssap=0, _aggregate=Fixed([
+             pdu_obj('UnnumberedInformation', 3, data=Bytes()),
+             pdu_obj('Information', 12, ns=SEQ(), nr=SEQ(), data=Bytes())]))),
+         name='C11/AggregatedFrame.encode[2]', bounded='bounded: 2 aggregated PDUs (UI, I) of symbolic content',
+         requires=['len(self._aggregate[0].data) + len(self._aggregate[1].data) < 60000'],
+         ensures=[('O-len', 'len(self) == len(result)'),
+                  ('O-enc', 'result == hdr(0, AGF, 0) + '
+                            'enc_agf_entry(enc_ui(self._aggregate[0].dsap, self._aggregate[0].ssap, self._aggregate[0].data)) + '
+                            'enc_agf_entry(enc_i(self._aggregate[1].dsap, self._aggregate[1].ssap, self._aggregate[1].ns, '
+                            'self._aggregate[1].nr, self._aggregate[1].data))')],
+         raises={})
+
+# ------------------------------------------------------------------ sentinels (must fail)
+contract(P + 'Connect.encode', 'C11',
+         dict(self=pdu_obj('Connect', 4, miu=Int(128, 2175), rw=Int(0, 15), sn=Opt(Bytes(1, 255)))),
+         name='C11/sentinel.len-off-by-one', expect_fail=True,
+         ensures=[('O-len', 'len(self) + 1 == len(result)')], raises={})
+contract(P + 'decode', 'C11', DEC_PARAMS, name='C11/sentinel.reads-too-narrow', expect_fail=True,
+         requires=['len(data) >= offset + 2', 'hdr_ptype(data[offset:offset+2]) == 3'],
+         reads={'data': ('offset', 'own_end(data, offset, size) - 1')}, raises={DE: []})
+contract(P + 'decode', 'C11', DEC_PARAMS, name='C11/sentinel.raises-nothing', expect_fail=True,
+         requires=['len(data) >= offset + 2', 'hdr_ptype(data[offset:offset+2]) == 7'], raises={})
